@@ -23,7 +23,7 @@ REPO = os.environ.get("CIWVERIF_REPO", "/repo")
 PROPS = {
     "C01": dict(fam=["core1", "tandem", "prio", "cls", "renege", "route", "preempt", "sched", "schedpre", "slot", "ccw"],
                 mc=["core1", "tandem", "tri", "cls", "renege", "schedpre", "slot", "ccw", "jockey", "infblock", "renegesched"], inv=["Inv_C01"], step=["Step_C01"]),
-    "C02": dict(fam=["core1", "tandem", "prio", "renege", "cls", "schedblock", "slotren", "preblock"],
+    "C02": dict(fam=["core1", "tandem", "prio", "renege", "cls", "schedblock", "slotren", "preblock", "jockey", "ppren"],
                 mc=["core1", "tandem", "renege", "prio", "renegesched", "slotpre", "infblock", "slotren"], inv=[], step=["Step_C02"]),
     "C03": dict(fam=["tandem", "route", "cls", "renege", "prio", "schedblock", "infblock", "preblock", "jockey"],
                 mc=["tandem", "tri", "route", "cls", "jockey", "infblock", "overblock"], inv=["Inv_C03"], step=["Step_C03"]),
@@ -39,7 +39,7 @@ PROPS = {
     "C08": dict(fam=["prio", "preempt", "cls", "renege", "ccw", "sched", "slot"], mc=["prio", "preempt", "cls", "ccw", "slot", "ppsched", "slotpre"], inv=[], step=["Step_C08"]),
     "C09": dict(fam=["route", "cls", "jsqsched", "tandem", "prio", "fpbjsq"], mc=["route", "cls", "tandem", "jsqsched", "jockey"], inv=["Inv_C09"], step=["Step_C09"]),
     "C11": dict(fam=["preempt", "ppccw"], mc=["preempt", "ppccw"], inv=["Inv_C11"], step=["Step_C11"]),
-    "C13": dict(fam=["renege", "core1", "jockey", "slotren", "renegesched", "ccwren"], mc=["renege", "jockey", "renegesched", "slotren"], inv=["Inv_C13"], step=["Step_C13"]),
+    "C13": dict(fam=["renege", "core1", "jockey", "slotren", "renegesched", "ccwren", "ppren"], mc=["renege", "jockey", "renegesched", "slotren"], inv=["Inv_C13"], step=["Step_C13"]),
     "C16": dict(fam=["pause"], mc=["pause"], inv=["Inv_C04", "Inv_C01"], step=["Step_C16"]),
     "C17": dict(fam=["trk", "trkccw", "trkreroute", "trkclsren", "trkblock3"], mc=["trk", "dead"], inv=["Inv_C17"], step=["Step_C17"]),
     "C18": dict(fam=["dead", "dead3", "exdead"], mc=["dead"], inv=["Inv_C18"], step=["Step_C18"]),
